@@ -155,9 +155,8 @@ class parameter_elasticities:
 # caller's own dict).
 @contract("mxlpy.model:Model.get_variable_names")
 class get_variable_names:
-    trusted = "reads the model's variable dict; only the frame is used (writes nothing)"
-    may_raise = (Exception,)
-    ensures = lambda self, result: True
+    requires = lambda self: Wf(self)
+    ensures = lambda self, result: [fresh(result), len(result) == len(keys(self._variables))]
     modifies = lambda self: []
 
 
